@@ -134,7 +134,13 @@ def run_unit(unit, rng, ctx):
     with warnings.catch_warnings():
         warnings.simplefilter('ignore')
         try:
-            tr = sys_.transitions()
+            custom_sites = None
+            if unit['i'] % 3 == 0:
+                from pymatgen.core import Lattice, Structure
+
+                custom_sites = Structure(lattice=Lattice(sys_.matrix * float(rng.choice([0.93, 1.04, 1.3]))), species=['Li'] * len(sys_.site_frac), coords=sys_.site_frac, labels=list(sys_.labels))
+                ctx.count('sites_given_in_a_different_cell')
+            tr = sys_.transitions(sites=custom_sites)
         except ValueError as exc:
             if 'need at least one array' in str(exc):
                 ctx.count('static_history_no_events')
